@@ -181,6 +181,8 @@ def traced_fails(case):
         if isinstance(b, np.ndarray):
             if not isinstance(a, np.ndarray) or a.shape != b.shape:
                 return 'traced-shape-%s: output %d of the traced call has shape %s, the direct call %s' % (case['op'], i, getattr(a, 'shape', None), b.shape)
+            if case['op'].startswith('expm_higham') and close(a, b, 1e-13):
+                continue           # a traced argument takes the branch-free order 13: another approximant of the same accuracy (rounding)
             if not np.array_equal(a, b, equal_nan=True):
                 return 'traced-value-%s: output %d of the traced call differs from the direct call (max diff %s)' % (case['op'], i, maxdiff(a, b))
     return None
@@ -275,7 +277,7 @@ def plain_fails(case):
         elif name in ('zeros', 'ones'):
             # every way NumPy lets the caller name a dtype (type object, NumPy scalar type, dtype object, string), and none
             dts = {'float': float, 'int': int, 'complex': complex, 'np.float32': np.float32, 'dtype-f4': np.dtype('f4'), 'str-f8': 'f8',
-                   'str-int32': 'int32', 'str-complex': 'complex128'}
+                   'str-int32': 'int32', 'str-complex': 'complex128', 'None': None}
             sh = [(2, 3), 3, (0,), [2, 2]][int(1000 * a[0, 0]) % 4]
             for dn, dt in sorted(dts.items()):
                 got, want = getattr(algopy, name)(sh, dtype=dt), getattr(np, name)(sh, dtype=dt)
